@@ -36,7 +36,7 @@ namespace vt
       std::string prefix;       // rotating output: prefix.NNN.ndjson
       int part = 0;
       long long written = 0;    // bytes in the current part
-      long long rotate_at = 3 << 20;
+      long long rotate_at = 8 << 20;
       void open_rotating( const char* pfx )
       {
          prefix = pfx;
@@ -261,6 +261,18 @@ namespace vt
       }
    };
 
+   // a few contrib rules (http::chunk_size, ...) define rule_t but no subs_t of their own
+   template< typename Rule, typename = void >
+   struct subs_of
+   {
+      using type = typename Rule::rule_t::subs_t;
+   };
+   template< typename Rule >
+   struct subs_of< Rule, std::void_t< typename Rule::subs_t > >
+   {
+      using type = typename Rule::subs_t;
+   };
+
    template< typename Rule >
    void describe()
    {
@@ -270,7 +282,7 @@ namespace vt
       }
       nodes()[ std::size_t( id ) ].described = true;
       std::vector< int > kids;
-      describe_list< typename Rule::subs_t >::run( kids );
+      describe_list< typename subs_of< Rule >::type >::run( kids );
       Writer& w = g().tb;
       w.s( "{\"id\":" );
       w.i( id );
